@@ -29,8 +29,8 @@ func main() {
 	if *list {
 		type entry struct {
 			ID, Level, Explanation string
-			TrustedBase           []string
-			Rules                 []string
+			TrustedBase            []string
+			Rules                  []string
 		}
 		var out []entry
 		for id, p := range rules.Properties {
